@@ -2499,7 +2499,17 @@ def splice_function(ft, directives, security=False):
     desugared = {}
     closures_in_header = set()
     for d in directives:
-        if d.kind == 'desugar_for':
+        if d.kind in ('desugar_for', 'desugar_for_opt'):
+            if d.kind == 'desugar_for_opt':
+                # `@@desugar_for_opt k ..` (unit `matching`): as `@@desugar_for`, but skipped when the function has no
+                # k-th loop any more (or it is no `for`) - use together with `@@loop_opt` / `@@after_opt`, so that a
+                # refactoring which REMOVES the loop is judged on its text against the contract instead of degrading
+                try:
+                    k0 = int(d.arg.split()[0])
+                except Exception:
+                    raise Undecided('lost-anchor', 'bad loop ordinal in %s' % d.kind)
+                if not (1 <= k0 <= len(lps)) or lps[k0 - 1][4] != 'for':
+                    continue
             k, (kw, lab, lob, lcb, kind) = loop_k(d)
             if kind != 'for':
                 raise Undecided('lost-anchor', 'loop %d of %s is not a for loop' % (k, ft.name))
